@@ -168,6 +168,17 @@ func FamilySingle(ts TmplSpec) []*Skeleton {
 	for _, w := range logicWraps() {
 		out = append(out, mkSkel("F-single", "logic."+w.Name, w.F(lInt, lMin3), refsem.Draft2020, ts))
 	}
+	// unknown keywords whose names differ from a vocabulary keyword only by case (ASCII or
+	// Unicode folding), with well- and ill-typed values: they must stay unknown
+	for _, u := range []Frag{
+		{"casevar-MaxLength", J{"type": "string", "MaxLength": 1}, "unknown"},
+		{"casevar-minitems", J{"type": "array", "minitems": 3, "uniqueitems": true}, "unknown"},
+		{"casevar-Properties", J{"Properties": J{"a": false}, "REQUIRED": A{"a"}, "additionalproperties": false}, "unknown"},
+		{"casevar-unicode", J{"con\u017ft": 1, "maxItem\u017f": 0, "\u212aeyword": 1, "min\u017fength": 9}, "unknown"},
+		{"casevar-illtyped", J{"minlength": "x", "Minimum": "y", "TYPE": 5, "x-foo": J{"type": "string"}, "$Ref": "#/nowhere"}, "unknown"},
+	} {
+		out = append(out, mkSkel("F-single", u.Group+"."+u.Name, u.J, refsem.Draft2020, ts))
+	}
 	out = append(out, mkSkel("F-single", "bool.true", nil, refsem.Draft2020, ts))
 	out[len(out)-1].Doc = "true"
 	out = append(out, mkSkel("F-single", "bool.false", nil, refsem.Draft2020, ts))
